@@ -8,9 +8,11 @@ package main
 
 import (
 	"bufio"
+	"bytes"
 	"fmt"
 	"os"
 	"runtime"
+	"sort"
 	"strconv"
 )
 
@@ -69,5 +71,58 @@ func runAll() {
 		currentCase.Store(line)
 		o := measure(op)
 		fmt.Fprintf(out, "(chk %s %s %s %s %s)\n", id, prop, op, o.obs, o.meta())
+		if prop.isSym("C01") {
+			if isOk(o.obs) {
+				noteAmplifier(op, o.alloc)
+			}
+		}
+	}
+	// C01, second pass: the well-framed single frames that allocated most per input octet are repeated to fill a
+	// 32 KiB datagram; the allocation bound must hold for the datagram as a whole (a decoder that reserves
+	// memory from a count field stays under the fixed part of the bound for one packet but not for hundreds)
+	for i, c := range amplifiers {
+		rep := bytes.Repeat(c.frame, 32768/len(c.frame))
+		op := opDgram(rep)
+		line := fmt.Sprintf("(case %d C01 %s)", 90000000+i, op)
+		currentCase.Store(line)
+		o := measure(op)
+		fmt.Fprintf(out, "(chk %d C01 %s %s %s)\n", 90000000+i, op, o.obs, o.meta())
+	}
+}
+
+type amplifier struct {
+	frame []byte
+	score uint64
+}
+
+var amplifiers []amplifier
+
+const maxAmplifiers = 48
+
+func noteAmplifier(op *Sx, alloc uint64) {
+	if op.K != 'l' || len(op.L) < 2 {
+		return
+	}
+	last := op.L[len(op.L)-1]
+	if last.K != 'b' || !(op.L[0].isSym("dec") || op.L[0].isSym("dgram")) {
+		return
+	}
+	b := last.B
+	if len(b) < 4 || len(b) > 512 || len(b)%4 != 0 || b[0]>>6 != 2 || 4*(int(b[2])<<8+int(b[3])+1) != len(b) {
+		return
+	}
+	score := alloc * 1024 / uint64(len(b))
+	if len(amplifiers) == maxAmplifiers && score <= amplifiers[len(amplifiers)-1].score {
+		return
+	}
+	for _, a := range amplifiers {
+		if bytes.Equal(a.frame, b) {
+			return
+		}
+	}
+	amplifiers = append(amplifiers, amplifier{append([]byte(nil), b...), score})
+	sort.SliceStable(amplifiers, func(i, j int) bool { return amplifiers[i].score > amplifiers[j].score })
+	if len(amplifiers) > maxAmplifiers {
+		amplifiers = amplifiers[:maxAmplifiers]
 	}
 }
